@@ -251,6 +251,13 @@ def loop_requests(ctx, quick, k):
         for t in itertools.product(toks, repeat=n):
             if in_domain(t):
                 req.append(f"readdata1 {hexs(b''.join(t))}")
+    # the same loop on a working-session file: state letters C I N D (D = skipped, not counted), any other character, NUL
+    wtoks = [b"#1", b"#2", b"=", b"POINT", b"NOPE", b"(1.,2.)", b";", b" ", b"ENDSEC", b"E", b"'a;'", b"/*c*/", b"C", b"D", b"I",
+             b"X", b"\x00"]
+    for n in range(0, (3 if quick else 4) + 1):
+        for t in itertools.product(wtoks, repeat=n):
+            if in_domain(t):
+                req.append(f"readdata1w {hexs(b''.join(t))}")
     insts = [b"#%d=POINT(1.,2.);", b"#%d=NOPE(1);", b"#%d=KINDS(", b"#%d POINT(1.);", b"garbage;", b"#%d=point('a;b');", b"#%d=!U(1);",
              b"/*c*/", b" ", b"#%d=POINT(1.,2.) ENDSEC;", b"ENDSEC;", b"END;", b"'", b"#%d=;", b"#%d=DPOINT(1.,*);\n"]
     for _ in range(300 if quick else 5000):
@@ -262,6 +269,7 @@ def loop_requests(ctx, quick, k):
                 x = x % kk
             out += x
         req.append(f"readdata1 {hexs(out)}")
+        req.append(f"readdata1w {hexs(b''.join((rng.choice([b'C', b'D', b'I', b'N', b'', b'X']) + x) for x in out.split(b'#') if x).replace(b'D=', b'D#1='))}")
     # long inputs around the limits: comment length, getline count
     c, g = k["comment"], k["getlineN"]
     for n in around(c, c + 1, extra=[100, 3 * c]):
